@@ -72,3 +72,32 @@ def strip_wrappers(term):
 
 def set_of_len(guard):
     return guard.get(("len", "P"), IntSet.range(0, (1 << 28) - 1))
+
+
+# ------------------------------------------------------------------------------------------------
+# leaf decoder tables
+
+def leaf_table(I, C, leaf, argsets):
+    """[(tuple of IntSets of the arguments on that path, canonical result term, St)]"""
+    res, atoms = I.leaf_summary(leaf, argsets)
+    out = []
+    for (s2, rv) in res:
+        sets = tuple((s2.aset(a) if a is not None else None) for a in atoms)
+        out.append((sets, C.val(s2, rv), s2, rv))
+    return out
+
+
+def project_term(term, proj):
+    """apply a VApp projection (('variant', i), ('f', j)) ... to a canonical term (Result only)"""
+    for p in proj:
+        if p[0] == "variant":
+            if term[0] == "adt" and term[1].endswith("Result"):
+                want = {0: "Ok", 1: "Err"}[p[1]]
+                if term[2] != want:
+                    return None
+            else:
+                return None
+        elif p[0] == "f":
+            if term[0] == "adt":
+                term = term[3][p[1]][1]
+    return term
